@@ -175,9 +175,18 @@ type Violation struct {
 	Blocked    []string
 }
 
+// heapBase is an immutable layer of the heap shared by many states.
+type heapBase struct {
+	m      map[ObjID]*Object
+	sum    uint64
+	summed bool
+}
+
 type State struct {
 	PC      *term.Term
-	Heap    map[ObjID]*Object
+	base    *heapBase          // shared, never written
+	over    map[ObjID]*Object  // this state's objects shadowing / extending base
+	knownShared bool
 	Threads []*Thread
 	Known   map[*term.Term]bool
 	Trace   *TraceNode
@@ -191,20 +200,30 @@ type State struct {
 }
 
 func newState() *State {
-	return &State{PC: term.True, Heap: map[ObjID]*Object{}, Known: map[*term.Term]bool{}, ep: &epoch{}}
+	return &State{PC: term.True, base: &heapBase{m: map[ObjID]*Object{}}, over: map[ObjID]*Object{}, Known: map[*term.Term]bool{}, ep: &epoch{}}
 }
 
 func (s *State) fork() *State {
+	if len(s.over) > 48 {
+		// flatten the overlay into a new shared base layer
+		nb := &heapBase{m: make(map[ObjID]*Object, len(s.base.m)+len(s.over))}
+		for k, v := range s.base.m {
+			nb.m[k] = v
+		}
+		for k, v := range s.over {
+			nb.m[k] = v
+		}
+		s.base = nb
+		s.over = map[ObjID]*Object{}
+	}
 	c := *s
-	c.Heap = make(map[ObjID]*Object, len(s.Heap)+8)
-	for k, v := range s.Heap {
-		c.Heap[k] = v
+	c.over = make(map[ObjID]*Object, len(s.over)+8)
+	for k, v := range s.over {
+		c.over[k] = v
 	}
 	c.Threads = append([]*Thread(nil), s.Threads...)
-	c.Known = make(map[*term.Term]bool, len(s.Known)+4)
-	for k, v := range s.Known {
-		c.Known[k] = v
-	}
+	s.knownShared = true
+	c.knownShared = true
 	c.Quiesce = s.Quiesce[:len(s.Quiesce):len(s.Quiesce)]
 	c.Tags = s.Tags[:len(s.Tags):len(s.Tags)]
 	c.Obs = s.Obs[:len(s.Obs):len(s.Obs)]
@@ -213,8 +232,48 @@ func (s *State) fork() *State {
 	return &c
 }
 
+func (s *State) lookupObj(id ObjID) *Object {
+	if o, ok := s.over[id]; ok {
+		return o
+	}
+	return s.base.m[id]
+}
+
+func (s *State) setObj(id ObjID, o *Object) { s.over[id] = o }
+
+// eachObj visits every object of the heap.
+func (s *State) eachObj(f func(ObjID, *Object)) {
+	for id, o := range s.over {
+		f(id, o)
+	}
+	for id, o := range s.base.m {
+		if _, sh := s.over[id]; !sh {
+			f(id, o)
+		}
+	}
+}
+
+// eachObjDiff visits the objects of s that may differ from those of n (all of them unless the
+// two states share their base layer, in which case only the overlays matter).
+func (s *State) eachObjDiff(n *State, f func(ObjID, *Object)) {
+	if s.base == n.base {
+		for id, o := range s.over {
+			f(id, o)
+		}
+		for id := range n.over {
+			if _, ok := s.over[id]; !ok {
+				if o := s.base.m[id]; o != nil {
+					f(id, o)
+				}
+			}
+		}
+		return
+	}
+	s.eachObj(f)
+}
+
 func (s *State) obj(id ObjID) *Object {
-	o := s.Heap[id]
+	o := s.lookupObj(id)
 	if o == nil {
 		panic(fmt.Sprintf("internal: no object %d", id))
 	}
@@ -225,7 +284,7 @@ func (s *State) objW(id ObjID) *Object {
 	o := s.obj(id)
 	if o.ep != s.ep {
 		o = o.clone(s.ep)
-		s.Heap[id] = o
+		s.over[id] = o
 	}
 	o.hash = 0
 	return o
@@ -285,6 +344,14 @@ func (s *State) learn(c *term.Term, v bool) {
 			s.learn(a, false)
 		}
 		return
+	}
+	if s.knownShared {
+		k := make(map[*term.Term]bool, len(s.Known)+4)
+		for a, b := range s.Known {
+			k[a] = b
+		}
+		s.Known = k
+		s.knownShared = false
 	}
 	s.Known[c] = v
 }
